@@ -38,6 +38,11 @@ def _plan(prop, tier):
             ns = cl.max_shards
             for s in range(ns):
                 tasks.append((prop.id, cl.name, tier, s, ns, 0))
+        if cl.machine is not None and n > 0:
+            ns = max(1, min(cl.max_shards, n // max(1, cl.min_per_shard)))
+            per = int(math.ceil(n / ns))
+            for s in range(ns):
+                tasks.append((prop.id, cl.name, tier, s, ns, -per))
         if cl.strategy is not None and n > 0:
             ns = max(1, min(cl.max_shards, n // max(1, cl.min_per_shard)))
             per = int(math.ceil(n / ns))
@@ -96,7 +101,63 @@ def run_shard(task, base_seed):
                 state["last"] = (case, unknown[0])
                 raise _Violation(unknown[0].site)
 
-        if per == 0:  # exhaustive enumeration, sharded by index
+        def record(case, out):
+            """Statistics only (no raising)."""
+            res["evaluations"] += 1
+            for lb in out.labels:
+                res["labels"][lb] += 1
+            kf_sites = {f.site for f in out.failures if findings.match(pid, cname, f)}
+            for k, v in out.ratios.items():
+                if k not in kf_sites and v > res["ratios"].get(k, 0.0):
+                    res["ratios"][k] = v
+            for f in out.failures:
+                kf = findings.match(pid, cname, f)
+                if kf:
+                    res["kf_hits"][kf] += 1
+            if out.nontrivial:
+                res["labels"]["nontrivial"] += 1
+                d = replay.digest(case)
+                if d not in res["nontrivial"]:
+                    res["nontrivial"].add(d)
+                    if len(res["samples"]) < 2:
+                        smp = {"clause": cname, "case": replay.summarise(case)}
+                        if out.sample:
+                            smp["measured"] = replay.summarise(out.sample)
+                        res["samples"].append(smp)
+
+        def raise_unknown(case, out):
+            unknown = [f for f in out.failures if not findings.match(pid, cname, f)]
+            if unknown:
+                state["last"] = (case, unknown[0])
+                raise _Violation(unknown[0].site)
+
+        if per < 0:   # stateful machine
+            import hypothesis
+            from hypothesis import HealthCheck, Phase, settings
+            from hypothesis.stateful import run_state_machine_as_test
+
+            class _Hooks:
+                after_step = staticmethod(raise_unknown)
+                done = staticmethod(record)
+            phases = [Phase.explicit, Phase.generate]
+            if (tier == "thorough" and cl.shrink) or os.environ.get("QV_SHRINK") == "1":
+                phases.append(Phase.shrink)
+            st_ = settings(max_examples=-per, stateful_step_count=cl.steps, database=None, deadline=None,
+                           derandomize=False, report_multiple_bugs=False, phases=phases,
+                           suppress_health_check=list(HealthCheck), print_blob=False)
+            Machine = cl.machine(tier, _Hooks)
+            try:
+                run_state_machine_as_test(hypothesis.seed(derive_seed(base_seed, pid, cname, shard))(Machine), settings=st_)
+            except _Violation:
+                case_, f = state["last"]
+                res["violations"].append({"key": f.key(), "case": replay.encode(case_), "failure": f.as_dict()})
+            except hypothesis.errors.Flaky:
+                if state["last"] is not None:
+                    case_, f = state["last"]
+                    res["violations"].append({"key": f.key(), "case": replay.encode(case_), "failure": f.as_dict()})
+                else:
+                    raise
+        elif per == 0:  # exhaustive enumeration, sharded by index
             cases = cl.enumerate(tier)
             for idx, case in enumerate(cases):
                 if idx % nshards != shard:
@@ -114,7 +175,7 @@ def run_shard(task, base_seed):
             from hypothesis import HealthCheck, Phase, given, settings
 
             phases = [Phase.explicit, Phase.generate]
-            if tier == "thorough" or os.environ.get("QV_SHRINK") == "1":
+            if (tier == "thorough" and cl.shrink) or os.environ.get("QV_SHRINK") == "1":
                 phases.append(Phase.shrink)
             st = settings(max_examples=per, database=None, deadline=None, derandomize=False,
                           report_multiple_bugs=False, phases=phases,
@@ -237,7 +298,8 @@ def check(pid, tier, base_seed):
                          f"value={v['failure']['value']} bound={v['failure']['bound']} tags={v['failure']['tags']}")
 
     exhaustive_clauses = [c.name for c in prop.clauses if c.enumerate is not None]
-    only_exhaustive = all(c.strategy is None or c.budget.get(tier, 0) == 0 for c in prop.clauses)
+    only_exhaustive = all((c.strategy is None and c.machine is None) or c.budget.get(tier, 0) == 0
+                          for c in prop.clauses)
     if not samples:
         samples = [{"note": "no non-trivial sample recorded"}]
     evidence = {
